@@ -122,6 +122,20 @@ Definition caps_upto (n : nat) : bool :=
 Example max_capacity_le : caps_upto 2049 = true.
 Proof. vm_compute. reflexivity. Qed.
 
+Lemma caps_upto_spec n :
+  caps_upto n = true -> forall cap, In cap (range n) ->
+  max_capacity cap <= cap + 1 /\ cap <= max_capacity cap /\ window_capacity cap <= cap.
+Proof.
+  unfold caps_upto. intros E cap H. rewrite forallb_forall in E.
+  specialize (E cap H). apply andb_prop in E. destruct E as [E E3]. apply andb_prop in E.
+  destruct E as [E1 E2]. apply N.leb_le in E1, E2, E3. auto.
+Qed.
+
+Lemma capacity_arith cap :
+  In cap (range 2049) ->
+  max_capacity cap <= cap + 1 /\ cap <= max_capacity cap /\ window_capacity cap <= cap.
+Proof. exact (caps_upto_spec 2049 max_capacity_le cap). Qed.
+
 (* ------------------------------------------------------------------ lock table instance *)
 (** handles: [true] = clone (count + 1), [false] = drop (count - 1) *)
 Definition lock_apply (u : bool) (v : lock_val) : lock_val :=
